@@ -40,6 +40,9 @@ inline std::string gen_req_name(Chooser &c, int id, const Profile &pf) {
     if (k == 4) { std::string l; unsigned n = 55 + c.pick(9); for (unsigned i = 0; i < n; i++) l += "\\065"; return base + "." + l; }   // escaped hostname chars: text 4x longer than wire
     if (k == 5) { std::string n = base; while (n.size() < 240 + c.pick(14)) n += "." + std::string(1 + c.pick(40), 'x'); return n.substr(0, 253); }    // boundary length
     if (k == 6) return base + ".sub.test.";
+    if (k == 7 && pf.prop == "C12") return base + ".a\\.b";       // (first label stays r<id>: the simulator attributes transmissions by it)
+    // an escaped dot is a dot of the name as given (resolv.conf counts characters) but not a label separator
+    if (k == 8 && pf.prop == "C12") return base + ".a\\.b.c";
   }
   static const char *suf[] = {".test", ".example.test", ".a.b.test", ".test", ".Mixed.Case.Test", ".test"};
   return base + suf[c.pick(6)];
